@@ -370,4 +370,6 @@ def rule_empty_rows(ctx, rule_id="O15.2"):
     decide_kinds(ctx, rule_id, "ods_rows(empty rows keep their place)", "cutplace.rowio.ods_rows", empty_row_cell, min_cells=9)
 
 
-RULES = [rule_cell_texts, rule_repeats_and_sheets, rule_empty_rows]
+from .common import rule_module_state  # noqa: E402
+
+RULES = [rule_cell_texts, rule_repeats_and_sheets, rule_empty_rows, rule_module_state]
